@@ -74,7 +74,8 @@ def _cases(draw, tier):
         # capacities that are exactly filled when everybody gets a first choice
         cap = [0] * inst['n2']
         for pl in inst['prefs']:
-            cap[pl[0][0] - 1] += 1
+            if pl:
+                cap[pl[0][0] - 1] += 1
         inst['puq'] = cap
         inst['plq'] = [0] * inst['n2']
         if inst['na'] == 2:
